@@ -483,6 +483,17 @@ def _cut(ip, node, st, lc, seq, n):
                     for cl in lc.hypotheses_end:
                         s2.assume(ip.spec_bool(cl.src, s2))
                         ctx.trusted[f'hypothesis on the dynamics (assumed at every step): {cl.label}: {cl.src}'] += 0
+                    for label, src in lc.lemmas_end:
+                        ctx.reveal_depth += 1
+                        try:
+                            f = ip.spec_bool(src, s2)
+                        finally:
+                            ctx.reveal_depth -= 1
+                        o = ctx.oblige(s2, f'{tag}#lemma:{label}', 'lemma', lc.role, f, node.lineno, note=src)
+                        if o is not None:
+                            o.qf_only = True
+                        s2.assume(f)
+                        s2.assume(ip.spec_bool(src, s2))
                     for cl in lc.step:
                         f = ip.spec_bool(cl.src, s2)
                         o = ctx.oblige(s2, f'{tag}#step:{cl.label}', 'step', cl.role, f, node.lineno, note=cl.src)
@@ -509,17 +520,6 @@ def _cut(ip, node, st, lc, seq, n):
                                    z3.BoolVal(not bad), node.lineno,
                                    note=f'{outs} after the step do not depend on {srcs}' +
                                         (f'  [offending symbols: {sorted(bad)[:6]}]' if bad else ''))
-                    for label, src in lc.lemmas_end:
-                        ctx.reveal_depth += 1
-                        try:
-                            f = ip.spec_bool(src, s2)
-                        finally:
-                            ctx.reveal_depth -= 1
-                        o = ctx.oblige(s2, f'{tag}#lemma:{label}', 'lemma', lc.role, f, node.lineno, note=src)
-                        if o is not None:
-                            o.qf_only = True
-                        s2.assume(f)
-                        s2.assume(ip.spec_bool(src, s2))
                     for label, src in lc.invariants:
                         f = ip.spec_bool(src, s2)
                         ctx.oblige(s2, f'{tag}#inv-preserve:{label}', 'inv-preserve', lc.role, f, node.lineno,
